@@ -243,7 +243,15 @@ def r2(ctx, F, sc):
     for bi in blocks:
         for st in b.blocks[bi]['stmts']:
             if st['dst']['l'] == pos and not st['dst']['proj']:
-                assigns.append((bi, norm_add(term_of(fl, st['rv']['ops'][0]) if st['rv']['k'] == 'use' else ('other',))))
+                rv_ = st['rv']
+                if rv_['k'] == 'use':
+                    t_ = term_of(fl, rv_['ops'][0])
+                elif rv_['k'] == 'bin':
+                    # without overflow checks (release flags) `pos += n` is a plain Add assigned to the cursor itself
+                    t_ = ('bin', rv_['op'], term_of(fl, rv_['ops'][0]), term_of(fl, rv_['ops'][1]))
+                else:
+                    t_ = ('other',)
+                assigns.append((bi, norm_add(t_)))
     # the copy path = blocks reachable only through the Some edge of a lookup; everything else in the loop is the literal path
     some_e = set()
     for lb, lt in sc.lookups:
